@@ -85,7 +85,7 @@ def generator_fn(g):
     return {"nontrivial": True, "sample": {"recorded_max": str(m), "clock": [str(t1), str(t2)], "ids": [str(a), str(b)]}}
 
 
-OPS = ("run-ok", "run-fail", "gc", "restore-old", "restore-future")
+OPS = ("run-ok", "run-fail", "gc", "restore-old", "restore-future", "restore-own")
 
 
 def make_history(nops, ops=OPS, window=3):
@@ -123,7 +123,18 @@ def make_history(nops, ops=OPS, window=3):
                     def status_for(self, kernel, proc):
                         return fakeos.StatusExited(3 if (op == "run-fail" and proc.name == "e") else 0)
                 kern = fakeos.Kernel(S(), clock=lambda: Reading(sec_c))
-                if op.startswith("restore"):
+                if op == "restore-own":
+                    # archive the project's own recorded versions and restore them on top of themselves: must be refused
+                    # without touching anything
+                    arch = os.path.join(hrun.SCRATCH_BASE, "c08-own-%s.tar.gz" % os.path.basename(str(proj.root)))
+                    ra = hrun.invoke_argv(["archive", "-o", arch], str(proj.root), fakeos.Kernel(fakeos.Sched()))
+                    if ra.status == 0:
+                        res = hrun.invoke_argv(["restore", arch], str(proj.root), kern)
+                        g.require(res.status != 0, "restore:recorded-version-restored-again", "restore of already recorded versions exited 0; history %s" % (hist + [(op, sec_c)],))
+                        os.unlink(arch)
+                    else:
+                        res = ra          # nothing recorded yet: nothing to archive
+                elif op.startswith("restore"):
                     # an archive made elsewhere whose version is older / ahead of this machine's clock
                     ts = (40 + i) if op == "restore-old" else (400 + i)
                     src = hrun.Project()
@@ -157,6 +168,12 @@ def make_history(nops, ops=OPS, window=3):
                     listing = [x for x in (p.snapshot.get("out_listing") or []) if x not in ("stdout.log", "stderr.log")]
                     g.require(not listing, "version:dir-not-empty-at-start",
                               "output directory already contained %s when the command started; %s" % (listing, H))
+                    new_rows = [r for r in proj.index_rows() if r not in rows_before]
+                    if op == "run-ok":
+                        g.require([r[1] for r in new_rows] == [vid], "version:recorded-id-differs-from-directory-written",
+                                  "the execution wrote %s but the index recorded %s; %s" % (os.path.basename(out), [r[1] for r in new_rows], H))
+                    else:
+                        g.require(not new_rows, "version:recorded-for-failed-run", "%s; %s" % (new_rows, H))
                 # recorded versions are immutable
                 for path, dig in recorded.items():
                     g.require(hrun.tree_digest(path) == dig, "version:recorded-directory-modified",
@@ -187,7 +204,7 @@ def spaces(tier):
                 "generate_new_output_version called twice; recorded maximum >= 0 and both clock readings are unbounded "
                 "integers, no monotonicity", depth=3, goals=["two readings within one second", "clock steps back"]),
           Space("history-3", make_history(3),
-                "<=3 invocations from {successful run, failing run, gc, restore of an archive with an older / a future version}; each invocation's clock second symbolic in a 3 s "
+                "<=3 invocations from {successful run, failing run, gc, restore of an archive with an older / a future version, restore of the project's own archive}; each invocation's clock second symbolic in a 3 s "
                 "window (may repeat or step back)", depth=5,
                 goals=["two invocations within one clock second", "clock steps back between invocations", "run after a failed run"],
                 outside=["concurrent invocations", "more than 3 invocations"])]
